@@ -42,14 +42,14 @@ claim("C08", "for-all-loop guard analysis, CFG dominance, field ownership, empti
       "The accept path of the configuration always runs the exactness / disjointness / node-IP / containment / local-preference checks for every element, and the parser cannot accept an entry yielding nothing; decided on all paths. Not a proof of the arithmetic inside ipaddr.Summarize or of selector semantics.",
       NOTE, "DESIGN.md section 5, C08")
 claim("C18", "map-iteration-order taint analysis over the call-graph closure, comparator analysis (SORT-IDX, total order), field coverage, CFG dominance",
-      "Neither API listing order nor Go map order can reach the compared configuration value: all listed kinds are sorted copies, no map-ordered slice escapes unsorted from the closure of config.For/toConfig, comparators index what they sort, reconcilers compare before applying. Decided for every input at once. Not decided: last-writer-wins value questions beyond the structural MAP-LWW rule, order of error messages.",
+      "Neither API listing order nor Go map order can reach the compared configuration value: all listed kinds are sorted copies, no map-ordered slice escapes unsorted from the closure of config.For/toConfig, comparators index what they sort, reconcilers compare before applying, the remembered configuration is not written by the handlers (SHARED-CONFIG; D16 repaired in a88bb7b) and acceptance of an advertisement judges every address group by its own family (ADV-VALID). Decided for every input at once. Not decided: last-writer-wins value questions beyond the structural MAP-LWW rule, order of error messages.",
       NOTE, "DESIGN.md section 5, C18")
 
 claim("C11", "sibling set agreement (assign vs Unassign), loop must-pass rules, numeric typestates (saturating accumulator, guarded decrement), field-map agreement",
       "Bookkeeping symmetry per address on all paths (including a pool that no longer exists), zero-delete, refresh-after-mutation, saturation and non-negativity of the capacity counters, name-for-name status copy with write errors returned. Not decided: the /24 arithmetic arm of poolCount, equality with a rebuilt allocator as values.",
       NOTE, "DESIGN.md section 5, C11")
 claim("C20", "must-hold lockset dataflow with caller-holds fixed point and LIFO defer modelling, who-may-call / method-value escape analysis, alias-of-guarded-storage check",
-      "Mutual exclusion premises decided on all paths: handlers only run under the Listener mutex, every guarded field is accessed under its lock, callbacks and channel sends run outside the fine-grained locks, no mutable guarded storage is handed out. Serial equivalence of results is a consequence, not checked on values; lock instances are not distinguished (no pointer analysis).",
+      "Mutual exclusion premises decided on all paths: handlers only run under the Listener mutex, every guarded field is accessed under its lock, callbacks and channel sends run outside the fine-grained locks, no mutable guarded storage is handed out, nothing waits for another goroutine under the announcer lock, and nothing outside internal/config stores into the parsed configuration that the reconcilers compare lock-free (SHARED-CONFIG; D16 repaired in a88bb7b). Serial equivalence of results is a consequence, not checked on values; lock instances are not distinguished (no pointer analysis); what a local copy of a configuration struct still shares through maps and pointers is not tracked.",
       NOTE, "DESIGN.md section 5, C20")
 
 claim("C13", "CFG dominance of reply guards, loop-exhaustion analysis of the verdict, append-iff-increment pairing, lockset dataflow restricted to layer2",
